@@ -13,8 +13,8 @@ def run(ctx):
         hb = variant == "tsan"
         exe = build.driver(variant, "c05_thread", ["c05_thread.c"], wraps=["pthread_create", "pthread_attr_destroy"], defines=(["HB_MODE"] if hb else []))
         for j, alive in enumerate([4, 16, 64] if q else [2, 4, 8, 16, 32, 64, 128]):
-            for rep in range(1 if q else 4):
-                n = (1200 if q else 30000) // (3 if hb else 1)
+            for rep in range(1 if q else 3):
+                n = (1200 if q else 12000) // (3 if hb else 1)
                 cmd = [exe, "--threads", str(n), "--alive", str(alive), "--races", str(120 if q else 2500), "--foreign", str(60 if q else 1000), "--unref-races", str(600 if q else 20000), "--seed", str(sd * 100 + j * 10 + rep)]
                 if rep % 2 == 1:
                     cmd.append("--no-delays")
